@@ -54,6 +54,7 @@ var (
 	errNoAuthenticator      = errors.New("packet does not contain an authenticator")
 	errNoCookies            = errors.New("packet does not contain cookies")
 	errNoUniqueID           = errors.New("packet does not contain a unique identifier")
+	errInvalidExtLength     = errors.New("invalid extension field length")
 	errShortUniqueID        = errors.New("UniqueIdentifier.ID < 32 bytes")
 	errUnexpectedExtHdrType = errors.New("unexpected extension header type")
 	errUnexpectedResponseID = errors.New("unexpected response ID")
@@ -144,6 +145,9 @@ func DecodePacket(pkt *Packet, b []byte) (err error) {
 	for len(b)-pos >= 28 && !foundAuthenticator {
 		var eh extHdr
 		eh.unpack(b, pos)
+		if eh.Length < 4 || int(eh.Length) > len(b)-pos {
+			return errInvalidExtLength
+		}
 		pos += 4
 
 		switch eh.Type {
@@ -224,6 +228,9 @@ func (pkt *Packet) authenticate(b []byte, key []byte) error {
 	for len(decrytedBuf)-pos >= 28 {
 		var eh extHdr
 		eh.unpack(decrytedBuf, pos)
+		if eh.Length < 4 || int(eh.Length) > len(decrytedBuf)-pos {
+			return errInvalidExtLength
+		}
 		pos += 4
 
 		switch eh.Type {
